@@ -93,8 +93,42 @@ impl Violation {
             self.clause.clone(),
         )
     }
+    /// a plain unit test that replays this violation without any explorer (paste into /repo/tests/)
+    pub fn unit_test(&self) -> Option<String> {
+        let ctor = match self.lang.as_str() {
+            "en" => "english",
+            "fr" => "french",
+            "es" => "spanish",
+            "pt" => "portuguese",
+            "it" => "italian",
+            "de" => "german",
+            "nl" => "dutch",
+            _ => return None,
+        };
+        let thr = match self.threshold {
+            Some(t) if t.is_nan() => "f64::NAN".to_string(),
+            Some(t) if t == f64::INFINITY => "f64::INFINITY".to_string(),
+            Some(t) if t == f64::NEG_INFINITY => "f64::NEG_INFINITY".to_string(),
+            Some(t) => format!("{t:?}"),
+            None => "0.0".to_string(),
+        };
+        let body = match self.entry.as_str() {
+            "text2digits" => {
+                if self.expected.starts_with("Err") {
+                    format!("assert!(text2num::text2digits({:?}, &lang).is_err());", self.input)
+                } else {
+                    format!("assert_eq!(text2num::text2digits({:?}, &lang).ok(), Some({:?}.to_string()));", self.input, self.expected)
+                }
+            }
+            "replace_text" => format!("assert_eq!(text2num::replace_numbers_in_text({:?}, &lang, {thr}), {:?});", self.input, self.expected),
+            _ => return None,
+        };
+        Some(format!("#[test]\nfn replay() {{\n    let lang = text2num::Language::{ctor}();\n    {body}\n}}"))
+    }
+
     pub fn to_json(&self, property: &str) -> Value {
         json!({
+            "unit_test": self.unit_test(),
             "property": property,
             "language": self.lang,
             "entry_point": self.entry,
